@@ -514,7 +514,7 @@ func main() {
 	}
 
 	// 2. GetPaths
-	n := run.Count(600, 20000)
+	n := run.Count(1500, 30000)
 	for i := 0; i < n; i++ {
 		r := rng.Fork(uint64(i))
 		mutated := i%4 == 3
